@@ -19,7 +19,7 @@ ASSUMPTIONS = ["from_adj_list only on square mazes whose highest row and column 
 NSHARDS = {"quick": 16, "thorough": 16}
 THRESHOLDS = {"quick": {
     "c13:nodes_connected": 1000, "c13:neighbors": 1000, "c13:degrees": 1000, "c13:component": 1000, "c13:valid-path": 1000,
-    "c13:invalid-path:broken": 300, "c13:invalid-path:oob-neg": 300, "c13:invalid-path:oob-big": 300, "c13:empty-path": 1000, "c13:one-cell-path": 3000,
+    "c13:invalid-path:broken": 300, "c13:invalid-path:oob-neg": 300, "c13:invalid-path:oob-big": 300, "c13:empty-path": 1000, "c13:one-cell-path": 3000, "c13:forks-on-walks": 300, "c13:is_connection-large-grid": 12,
     "c13:adj-list": 1000, "c13:is_connection": 1000, "c13:from_adj_list": 300, "c13:oblong": 100, "c13:forks": 500,
     "c13:lattice_connection_array": 10, "c13:lattice_max_degrees": 10, "c13:manhattan": 100, "c13:get_nodes": 1000,
     "c13:exh-structures": 6541,
@@ -222,6 +222,16 @@ def _forks(ctx, cl, g, case, rng):
     comp = sorted(g.component_of(s))
     e = comp[int(rng.integers(len(comp)))]
     path = g.shortest_path(s, e, rng)
+    if rng.random() < 0.3 and g.adj[s]:
+        # any walk along connections is a solution the class accepts - also one that steps back or laps a cycle and so visits its
+        # own first / last cell again; the rule applies per step
+        walk = [s]
+        for _ in range(int(rng.integers(2, 12))):
+            nb = g.adj[walk[-1]]
+            walk.append(nb[int(rng.integers(len(nb)))])
+        path = walk
+        e = walk[-1]
+        ctx.tally("c13:forks-on-walks")
     sm = lib.solved(cl, path)
     n = len(path)
     exp_forks = []
@@ -284,6 +294,25 @@ def run(ctx):
             _forks(ctx, cl, g, case, rng)
         if j < 2:
             ctx.sample(case)
+    # the batch edge test on large grids with the int8 edge arrays the library itself produces (row + col past 127)
+    from maze_dataset.token_utils import is_connection as _isc
+    for j, (R, C) in enumerate([(70, 70), (100, 100), (127, 127), (2, 127), (64, 65), (120, 40)]):
+        if not ctx.mine(j):
+            continue
+        rng = ctx.sub_rng("bigedges", j)
+        cl = ref.bernoulli_cl(R, C, 0.5, rng)
+        slots = ref.lattice_edge_slots(R, C)
+        edges = []
+        for (d, r, c) in slots:
+            a = (r, c); b = (r + 1, c) if d == 0 else (r, c + 1)
+            edges.append((a, b) if (r + c + d) % 2 else (b, a))
+        exp = np.array([bool(cl[sl]) for sl in slots])
+        for dt in (np.int8, np.int16, np.int64):
+            with ctx.guard("C13/is_connection", dict(shape=(R, C), dtype=np.dtype(dt).name)):
+                res = np.asarray(_isc(np.array(edges, dtype=dt), cl), dtype=bool)
+                ctx.ev(); ctx.tally("c13:is_connection-large-grid")
+                bad = np.nonzero(res != exp)[0]
+                ctx.check(len(bad) == 0, "C13/is_connection-wrong", lambda: f"{len(bad)} of {len(exp)} edges wrong on {R}x{C} with {np.dtype(dt).name} coordinates, e.g. {edges[int(bad[0])]} -> {bool(res[int(bad[0])])}", dict(shape=(R, C), dtype=np.dtype(dt).name))
     # lattice helpers
     for n in range(1, 21 if ctx.quick else 51):
         if not ctx.mine(n):
